@@ -105,15 +105,18 @@ func H_kinds() {
 
 	dir := root + "/t"
 	hlib.Must(os.MkdirAll(dir, 0o755), "mkdir")
-	fk := rt.Choice("file-state", 4)   // 0 as signed, 1 missing, 2 dir instead, 3 symlink instead
-	dk := rt.Choice("dir-state", 3)    // 0 as signed, 1 missing, 2 file instead
+	fk := rt.Choice("file-state", 5)   // 0 as signed, 1 missing, 2 dir instead, 3 dangling symlink instead, 4 symlink to a file with the signed content
+	dk := rt.Choice("dir-state", 4)    // 0 as signed, 1 missing, 2 file instead, 3 symlink to a directory instead
 	lk := rt.Choice("link-state", 5)   // 0 as signed, 1 missing, 2 retargeted, 3 file instead, 4 dir instead
-	pk := rt.Choice("nested-dir-state", 3) // 0 as signed, 1 parent replaced by a regular file, 2 parent missing
+	pk := rt.Choice("nested-dir-state", 4) // 0 as signed, 1 parent replaced by a regular file, 2 parent missing, 3 parent replaced by a symlink to a directory with the same layout
 	switch pk {
 	case 0:
 		hlib.Must(os.MkdirAll(dir+"/p/q", 0o755), "mkdir")
 	case 1:
 		hlib.Must(os.WriteFile(dir+"/p", []byte{3}, 0o644), "write")
+	case 3:
+		hlib.Must(os.MkdirAll(root+"/elsewhere-p/q", 0o755), "mkdir")
+		hlib.Must(os.Symlink(root+"/elsewhere-p", dir+"/p"), "symlink")
 	}
 	switch fk {
 	case 0:
@@ -122,12 +125,18 @@ func H_kinds() {
 		hlib.Must(os.MkdirAll(dir+"/f", 0o755), "mkdir")
 	case 3:
 		hlib.Must(os.Symlink("nowhere", dir+"/f"), "symlink")
+	case 4:
+		hlib.Must(os.WriteFile(root+"/elsewhere-f", S, 0o644), "write")
+		hlib.Must(os.Symlink(root+"/elsewhere-f", dir+"/f"), "symlink")
 	}
 	switch dk {
 	case 0:
 		hlib.Must(os.MkdirAll(dir+"/d", 0o755), "mkdir")
 	case 2:
 		hlib.Must(os.WriteFile(dir+"/d", []byte{1}, 0o644), "write")
+	case 3:
+		hlib.Must(os.MkdirAll(root+"/elsewhere-d", 0o755), "mkdir")
+		hlib.Must(os.Symlink(root+"/elsewhere-d", dir+"/d"), "symlink")
 	}
 	switch lk {
 	case 0:
